@@ -6,6 +6,7 @@ Mesh = (xyz (n,3) unit vectors, faces list[list[int]] CCW from outside).
 
 import itertools
 import math
+import os
 
 import numpy as np
 
@@ -615,6 +616,10 @@ def build(desc):
         raise ValueError(fam)
     for key, val in desc.get("ops", []):
         m = apply_op(m, key, val)
+    if desc.get("float32") or os.environ.get("UXMON_F32_EXPERIMENT") == "2":
+        from . import ux
+
+        m = ux.mesh_f32(m)  # node coordinates as single-precision lon/lat (what most model output carries)
     return m
 
 
